@@ -26,7 +26,7 @@ PY
 fi
 (cd $S && GOFLAGS=-mod=mod GOPROXY=off GOSUMDB=off GOTOOLCHAIN=local go1.26.8 build ./... ) || { echo "MUTANT DOES NOT COMPILE"; rm -rf $S; exit 3; }
 cd /verif
-VERIF_REPLAY_DIR=$S/.replay VERIF_REPO=$S ./check $ID $TIER 2>/tmp/scratch/teeth.$$.err | grep -E "VIOLATION|KNOWN" 
+VERIF_EVIDENCE_DIR=$S/.evidence VERIF_REPLAY_DIR=$S/.replay VERIF_REPO=$S ./check $ID $TIER 2>/tmp/scratch/teeth.$$.err | grep -E "VIOLATION|KNOWN" 
 rc=${PIPESTATUS[0]}
 [ $rc -eq 2 ] && tail -20 /tmp/scratch/teeth.$$.err
 grep -E "violated|failed after|panic after" /tmp/scratch/teeth.$$.err | head -2 | cut -c1-400
